@@ -48,7 +48,9 @@ pub fn phases(prop: &str, tier: Tier) -> Vec<Phase> {
             Phase { name: "rt-grid", units: 13, seeded: false },
             Phase { name: "c18-user-shape", units: 2, seeded: false },
             Phase { name: "c18-big-emit", units: if q { 1 } else { 2 }, seeded: false },
-            Phase { name: "rt-large", units: if q { 6 } else { 7 }, seeded: false },
+            // whenever a write reports success the announced bytes reached the device: shapes of 1025 and 2049 parts under destination faults
+            Phase { name: "wfault-manyparts", units: if q { 8 } else { 16 }, seeded: false },
+            Phase { name: "rt-large", units: if q { 7 } else { 8 }, seeded: false },
             Phase { name: "rt-seeded", units: if q { 1500 } else { 150_000 }, seeded: true },
             // shapes read from foreign files (empty parts, one-point lines, zero parts) written back
             Phase { name: "c03-sweep", units: 14, seeded: false },
@@ -56,34 +58,37 @@ pub fn phases(prop: &str, tier: Tier) -> Vec<Phase> {
         ],
         "C02" => vec![
             Phase { name: "rt-grid", units: 13, seeded: false },
-            Phase { name: "rt-large", units: if q { 6 } else { 7 }, seeded: false },
+            Phase { name: "rt-large", units: if q { 7 } else { 8 }, seeded: false },
             Phase { name: "rt-seeded", units: if q { 1500 } else { 150_000 }, seeded: true },
             Phase { name: "wfault-c02", units: if q { 1500 } else { 150_000 }, seeded: true },
         ],
         "C04" => vec![
             Phase { name: "rt-grid", units: 13, seeded: false },
-            Phase { name: "rt-large", units: if q { 6 } else { 7 }, seeded: false },
+            Phase { name: "rt-large", units: if q { 7 } else { 8 }, seeded: false },
             Phase { name: "rt-seeded", units: if q { 1500 } else { 150_000 }, seeded: true },
             // shapes read from foreign files written back with an index
             Phase { name: "c03-sweep", units: 14, seeded: false },
             Phase { name: "foreign-seeded", units: if q { 300 } else { 30_000 }, seeded: true },
+            // the index after a finalize that failed once, the history ended by drop, finalize or the bulk call
+            Phase { name: "wfault-c02", units: if q { 1000 } else { 100_000 }, seeded: true },
         ],
         "C01" => vec![
             Phase { name: "rt-grid", units: 13, seeded: false },
-            Phase { name: "rt-large", units: if q { 6 } else { 7 }, seeded: false },
+            Phase { name: "rt-large", units: if q { 7 } else { 8 }, seeded: false },
             Phase { name: "rt-seeded", units: if q { 1500 } else { 150_000 }, seeded: true },
         ],
         "C05" => vec![
             Phase { name: "c05-big-box", units: if q { 1 } else { 2 }, seeded: false },
             Phase { name: "rt-grid", units: 13, seeded: false },
-            Phase { name: "rt-large", units: if q { 6 } else { 7 }, seeded: false },
+            Phase { name: "rt-large", units: if q { 7 } else { 8 }, seeded: false },
             Phase { name: "rt-seeded", units: if q { 1000 } else { 100_000 }, seeded: true },
             Phase { name: "hw-seeded", units: if q { 800 } else { 80_000 }, seeded: true },
             Phase { name: "wfault-c05", units: if q { 2000 } else { 200_000 }, seeded: true },
         ],
         "C09" => vec![
-            Phase { name: if q { "c09-sweep4" } else { "c09-sweep6" }, units: 78, seeded: false },
+            Phase { name: if q { "c09-sweep4" } else { "c09-sweep6" }, units: 104, seeded: false },
             Phase { name: "c09-big-file", units: 2, seeded: false },
+            Phase { name: "c09-size-ladder", units: 1, seeded: false },
             Phase { name: "wfault-c02", units: if q { 1500 } else { 150_000 }, seeded: true },
             Phase { name: "hw-seeded", units: if q { 1000 } else { 150_000 }, seeded: true },
         ],
@@ -98,12 +103,14 @@ pub fn phases(prop: &str, tier: Tier) -> Vec<Phase> {
         "C11" => vec![
             Phase { name: "crash-path", units: 4, seeded: false },
             Phase { name: "crash-big", units: if q { 1 } else { 2 }, seeded: false },
+            Phase { name: "crash-range-tear", units: 120, seeded: false },
             Phase { name: "crash-tear", units: if q { 160 } else { 8000 }, seeded: true },
             Phase { name: if q { "crash-sampled" } else { "crash-full" }, units: if q { 320 } else { 4000 }, seeded: true },
         ],
         "C12" => vec![
             Phase { name: "c12-big-file", units: 1, seeded: false },
-            Phase { name: "wfault-large", units: 8, seeded: false },
+            Phase { name: "c12-stderr-gone", units: 1, seeded: false },
+            Phase { name: "wfault-large", units: if q { 16 } else { 24 }, seeded: false },
             Phase { name: "wfault", units: if q { 640 } else { 150_000 }, seeded: true },
             Phase { name: "wfault-c02", units: if q { 1500 } else { 150_000 }, seeded: true },
         ],
@@ -143,7 +150,7 @@ pub fn run_unit(prop: &str, phase: &str, unit: u64, seed: u64, _tier: Tier, ctx:
         }
         "rt-grid" => crate::fam_rt::grid_unit(unit, ctx, ctl),
         // unit 5 (a 2^20-point part) is left to the thorough tier: in the quick tier the sixth unit is the 2^16-record one
-        "rt-large" => crate::fam_rt::large_unit(if _tier == Tier::Quick && unit == 5 { 6 } else { unit }, ctx, ctl),
+        "rt-large" => crate::fam_rt::large_unit(if _tier == Tier::Quick && unit == 5 { 7 } else { unit }, ctx, ctl),
         "pair-large" => crate::fam_pair::large_unit(unit, ctx, ctl),
         "pair-sweep3" => crate::fam_pair::sweep_unit(unit, 3, ctx, ctl),
         "pair-sweep4" => crate::fam_pair::sweep_unit(unit, 4, ctx, ctl),
@@ -161,9 +168,10 @@ pub fn run_unit(prop: &str, phase: &str, unit: u64, seed: u64, _tier: Tier, ctx:
                 ctl.after_case(ctx, || Scenario::Pair(scn.clone()));
             }
         }
-        "c15-sweep4" => crate::fam_histr::sweep_unit(unit, 4, ctx, ctl),
-        "c15-sweep5" => crate::fam_histr::sweep_unit(unit, 5, ctx, ctl),
-        "c15-sweep6" => crate::fam_histr::sweep_unit(unit, 6, ctx, ctl),
+        "c15-sweep4" => crate::fam_histr::sweep_unit(unit, 4, 4, ctx, ctl),
+        "c15-sweep5" => crate::fam_histr::sweep_unit(unit, 5, 5, ctx, ctl),
+        // thorough: every history up to length 5 over the whole alphabet, up to length 6 over the property's own
+        "c15-sweep6" => crate::fam_histr::sweep_unit(unit, 5, 6, ctx, ctl),
         "c03-sweep" => crate::fam_foreign::c03_sweep_unit(unit, ctx, ctl),
         "c14-sparse" => crate::fam_foreign::sparse_unit(unit, ctx, ctl),
         "foreign-large" => crate::fam_foreign::large_unit(unit, ctx, ctl),
@@ -205,6 +213,8 @@ pub fn run_unit(prop: &str, phase: &str, unit: u64, seed: u64, _tier: Tier, ctx:
         "c18-user-shape" => crate::fam_histw::user_unit(if unit == 0 { 0 } else { 4 }, ctx, ctl),
         "c09-big-file" => crate::fam_histw::user_unit(1 + unit, ctx, ctl),
         "c12-big-file" => crate::fam_histw::user_unit(3 + unit, ctx, ctl),
+        "c09-size-ladder" => crate::fam_histw::user_unit(5, ctx, ctl),
+        "c12-stderr-gone" => crate::fam_histw::user_unit(6, ctx, ctl),
         "c10-user-shape" => crate::fam_histw::fake_unit(unit, ctx, ctl),
         "c10-long" => crate::fam_histw::c10_long_unit(unit, ctx, ctl),
         "c10-sweep3" => crate::fam_histw::c10_sweep_unit(unit, 3, ctx, ctl),
@@ -212,6 +222,7 @@ pub fn run_unit(prop: &str, phase: &str, unit: u64, seed: u64, _tier: Tier, ctx:
         "crash-tear" => crate::fam_crash::tear_unit(derive(seed, "C11/tear", unit), ctx, ctl),
         "crash-path" => crate::fam_crash::path_unit(unit, ctx, ctl),
         "crash-big" => crate::fam_crash::big_unit(unit, ctx, ctl),
+        "crash-range-tear" => crate::fam_crash::range_tear_unit(unit, ctx, ctl),
         "c05-big-box" => crate::fam_rt::bigbox_unit(unit, ctx, ctl),
         "c18-big-emit" => crate::fam_rt::bigemit_unit(unit, ctx, ctl),
         "crash-sampled" => crate::fam_crash::unit(derive(seed, "C11/crash", unit), 20_000, ctx, ctl),
@@ -219,6 +230,7 @@ pub fn run_unit(prop: &str, phase: &str, unit: u64, seed: u64, _tier: Tier, ctx:
         "wfault-c05" => crate::fam_wfault::unit_c05(derive(seed, "C05/wfault", unit), ctx, ctl),
         "wfault-c02" => crate::fam_wfault::unit_c02(derive(seed, "C02/wfault", unit), ctx, ctl),
         "wfault-large" => crate::fam_wfault::large_unit(unit, ctx, ctl),
+        "wfault-manyparts" => crate::fam_wfault::large_unit(8 + unit, ctx, ctl),
         "wfault" => crate::fam_wfault::unit(derive(seed, "C12/wfault", unit), ctx, ctl),
         "corrupt" => crate::fam_corrupt::unit(derive(seed, "C07/corrupt", unit), ctx, ctl),
         "ladder" => crate::fam_corrupt::ladder_unit(unit, ctx, ctl),
@@ -240,49 +252,49 @@ pub fn meta(prop: &str) -> PropMeta {
     match prop {
         "C01" | "C02" | "C04" | "C18" => PropMeta {
             level: "exploration",
-            rule: "rt-grid: 13 types x parts 1..=6 x points/part 1..=8 x {Direct, BufWriter(7), BufWriter(8192)} x {with,without shx}, enumerated; rt-large: files of 1023..10000 records, shapes of 1023..2049 parts and of 1023..8193, 65535..70000, 2^17+5, 2^18+5 (thorough: 2^20+5) points per part, around the readers' internal limits and powers of two a block-wise writer may use; rt-seeded: one seeded scenario per run (type, 0..40 shapes via public constructors, swarm-drawn float classes incl. +-0, subnormals, +-inf, sentinels, no-data neighbourhood, NaN in Z/M; finalize placement; ending by drop / finalize+drop / write_shapes; writer and reader stacks; chunk/EINTR schedules on all four devices; by-path routes over pre-existing longer files in 1/16 of the runs). every file is read back through iter_shapes / iter_shapes_as / read / read_as / random access / the Iterator adaptors nth(1) + step_by(2), with and without index; wfault-c02 (C02 only): seeded workloads with finalize calls anywhere (plain or retried) x every device operation of every finalize failed once on either file - the file a later successful finalize or the drop leaves behind is judged by the strict decoder. A run is non-trivial if it wrote at least one shape; distinct = distinct (type, per-shape part-length signature, writer stack, call pattern, reader stack) tuples by hash. In 1/8 of the seeded runs the (empty) destinations are handed to the writer at a non-zero position. rt-large also writes single parts / multipoints of 65535..70000 points (Z and M types). A quarter of the multi-vertex shapes reach the writer as a Clone::clone() of the constructed value or as another shape overwritten with Clone::clone_from(). After the last explicit finalize of a history the bytes the destinations hold at that moment (below any buffer, the writer still alive) are read back through all routes as well. Every file is also read through iter_shapes().last(). C04 and C18 additionally run c03-sweep and foreign-seeded: every shape read from a foreign file (empty parts, one-point lines, zero parts) is written back through ShapeWriter - announced size = bytes emitted = stored content length, index entries address the records, the rewritten file reads back as what was read. rt-large also writes files of 65535, 65536, 65537, 70000 and 131072 records whose last shape alone holds the extremes. By-path routes name the .shp with a .shp / .SHP / .Shp extension. Every file is also counted with iter_shapes().count() and iterated again afterwards: what that second iteration yields must not depend on the index (C04). c18-user-shape also writes one user-defined record of 2 GiB - 1 MiB, 2 GiB and 3 GiB to sparse sinks (content length in the record header and in the index entry). rt-grid also writes polygons with a hole of side 2^-30, 2^-20, 2^-10 (exact area tiny, not zero) declared inner and outer in both orientations. write_shapes is handed a Vec or a lazy iterator whose size_hint lower bound is 0. Ring roles are judged wherever the exact signed area (integer arithmetic on the coordinates' own binary scale) is not zero; differences on rings whose double-precision shoelace sum itself rounds to zero or to the other sign form the open known finding C01/ring-role-rounding. A quarter of the by-path runs name their files without a directory component. c18-big-emit: one Multipoint of 2^26 + 3 points (thorough also a MultipointM of 2^26 + 5) emitted into counting sinks.",
+            rule: "rt-grid: 13 types x parts 1..=6 x points/part 1..=8 x {Direct, BufWriter(7), BufWriter(8192), write-back layer (committed on flush only)} x {with,without shx}, enumerated; rt-large: files of 1023..10000 records, shapes of 1023..2049 parts and of 1023..8193, 65535..70000, 2^17+5, 2^18+5 (thorough: 2^20+5) points per part, around the readers' internal limits and powers of two a block-wise writer may use; rt-seeded: one seeded scenario per run (type, 0..40 shapes via public constructors, swarm-drawn float classes incl. +-0, subnormals, +-inf, sentinels, no-data neighbourhood, NaN in Z/M; finalize placement; ending by drop / finalize+drop / write_shapes; writer and reader stacks; chunk/EINTR schedules on all four devices; by-path routes over pre-existing longer files in 1/16 of the runs). every file is read back through iter_shapes / iter_shapes_as / read / read_as / random access / the Iterator adaptors nth(1) + step_by(2), with and without index; wfault-c02 (C02 only): seeded workloads with finalize calls anywhere (plain or retried) x every device operation of every finalize failed once on either file - the file a later successful finalize or the drop leaves behind is judged by the strict decoder. A run is non-trivial if it wrote at least one shape; distinct = distinct (type, per-shape part-length signature, writer stack, call pattern, reader stack) tuples by hash. In 1/8 of the seeded runs the (empty) destinations are handed to the writer at a non-zero position. rt-large also writes single parts / multipoints of 65535..70000 points (Z and M types). A quarter of the multi-vertex shapes reach the writer as a Clone::clone() of the constructed value or as another shape overwritten with Clone::clone_from(). After the last explicit finalize of a history the bytes the destinations hold at that moment (below any buffer, the writer still alive) are read back through all routes as well. Every file is also read through iter_shapes().last(). C04 and C18 additionally run c03-sweep and foreign-seeded: every shape read from a foreign file (empty parts, one-point lines, zero parts) is written back through ShapeWriter - announced size = bytes emitted = stored content length, index entries address the records, the rewritten file reads back as what was read. rt-large also writes files of 65535, 65536, 65537, 70000 and 131072 records whose last shape alone holds the extremes. By-path routes name the .shp with a .shp / .SHP / .Shp extension. Every file is also counted with iter_shapes().count() and iterated again afterwards: what that second iteration yields must not depend on the index (C04). c18-user-shape also writes one user-defined record of 2 GiB - 1 MiB, 2 GiB and 3 GiB to sparse sinks (content length in the record header and in the index entry). rt-grid also writes polygons with a hole of side 2^-30, 2^-20, 2^-10 (exact area tiny, not zero) declared inner and outer in both orientations. write_shapes is handed a Vec or a lazy iterator whose size_hint lower bound is 0. Ring roles are judged wherever the exact signed area (integer arithmetic on the coordinates' own binary scale) is not zero; differences on rings whose double-precision shoelace sum itself rounds to zero or to the other sign form the open known finding C01/ring-role-rounding. A quarter of the by-path runs name their files without a directory component. c18-big-emit: one Multipoint of 2^26 + 3 points (thorough also a MultipointM of 2^26 + 5) emitted into counting sinks. rt-large also writes, for each of the 10 multi-vertex types, a part of 2^16 + 7 points followed by a small record. A tenth of the seeded writer stacks is the write-back layer. C04 also runs wfault-c02 (histories in which a finalize failed once, ended by drop, by finalize or by the bulk write_shapes on the same writer): every index entry, read on its own, points at bytes of the .shp that are the header of the record of that rank. C18 also runs wfault-manyparts: shapes of 1025 and 2049 parts written straight to the devices with every one of the first 1200 and last 200 operations of each call (and every seventh in between) failing once or persistently: whenever a write call reports success, the bytes that reached the .shp during the call are record header, type code and exactly the announced size.",
             explanation: "Fault-free configuration of the simulator with must-be-masked transfer schedules: the real writer runs against simulated devices, the bytes are judged by an independent decoder and read back through every reading route of the real reader. Simulated time = device operations (logical_steps); the code under test has no clock.",
             exhaustive: false,
         },
         "C05" => PropMeta {
             level: "exploration",
-            rule: "rt-grid: 13 types x parts 1..=6 x points/part 1..=8 x {Direct, BufWriter(7), BufWriter(8192)} x {with,without shx}, enumerated; rt-large: files of 1023..10000 records, shapes of 1023..2049 parts and of 1023..8193, 65535..70000, 2^17+5, 2^18+5 (thorough: 2^20+5) points per part, around the readers' internal limits and powers of two a block-wise writer may use; rt-seeded: one seeded scenario per run (type, 0..40 shapes via public constructors, swarm-drawn float classes incl. +-0, subnormals, +-inf, sentinels, no-data neighbourhood, NaN in Z/M; finalize placement; ending by drop / finalize+drop / write_shapes; writer and reader stacks; chunk/EINTR schedules on all four devices; by-path routes over pre-existing longer files in 1/16 of the runs). A run is non-trivial if it wrote at least one shape; distinct = distinct (type, per-shape part-length signature, writer stack, call pattern, reader stack) tuples by hash. hw-seeded: seeded writer histories (1..5 shapes, up to 12 calls, finalize anywhere, rejected writes) so that the extreme falls before/after an intermediate finalize; wfault-c05: seeded histories with a one-shot fault on the first device operation of a non-first write_shape (the call fails having transferred nothing), after which the history goes on. A quarter of the multi-vertex shapes reach the writer through Clone::clone() / Clone::clone_from(). rt-large (as for C01): incl. files of exactly 2^16 and 2^17 records whose last shape alone holds the extremes. c05-big-box: one Multipoint of 8 Mi + 2 and one Polyline of 8 Mi + 3 points (thorough: 16 Mi + 2, 4 Mi + 2, 2 Mi + 2), generated procedurally, the last vertex alone holding the maxima: carried box, record box, header box.",
+            rule: "rt-grid: 13 types x parts 1..=6 x points/part 1..=8 x {Direct, BufWriter(7), BufWriter(8192), write-back layer (committed on flush only)} x {with,without shx}, enumerated; rt-large: files of 1023..10000 records, shapes of 1023..2049 parts and of 1023..8193, 65535..70000, 2^17+5, 2^18+5 (thorough: 2^20+5) points per part, around the readers' internal limits and powers of two a block-wise writer may use; rt-seeded: one seeded scenario per run (type, 0..40 shapes via public constructors, swarm-drawn float classes incl. +-0, subnormals, +-inf, sentinels, no-data neighbourhood, NaN in Z/M; finalize placement; ending by drop / finalize+drop / write_shapes; writer and reader stacks; chunk/EINTR schedules on all four devices; by-path routes over pre-existing longer files in 1/16 of the runs). A run is non-trivial if it wrote at least one shape; distinct = distinct (type, per-shape part-length signature, writer stack, call pattern, reader stack) tuples by hash. hw-seeded: seeded writer histories (1..5 shapes, up to 12 calls, finalize anywhere, rejected writes) so that the extreme falls before/after an intermediate finalize; wfault-c05: seeded histories with a one-shot fault on the first device operation of a non-first write_shape (the call fails having transferred nothing), after which the history goes on. A quarter of the multi-vertex shapes reach the writer through Clone::clone() / Clone::clone_from(). rt-large (as for C01): incl. files of exactly 2^16 and 2^17 records whose last shape alone holds the extremes. c05-big-box: one Multipoint of 8 Mi + 2 and one Polyline of 8 Mi + 3 points (thorough: 16 Mi + 2, 4 Mi + 2, 2 Mi + 2), generated procedurally, the last vertex alone holding the maxima: carried box, record box, header box.",
             explanation: "Fault-free configuration of the simulator with must-be-masked transfer schedules: the real writer runs against simulated devices, the bytes are judged by an independent decoder and read back through every reading route of the real reader. Simulated time = device operations (logical_steps); the code under test has no clock. C05 oracle: independent min/max (compared with ==) over the captured vertices against the constructed box, the record box, header bytes 36..100 and the reader\'s header; M range judged only when every measure is real data; no NaN runs.",
             exhaustive: false,
         },
         "C06" => PropMeta {
             level: "exploration",
-            rule: "rt-grid: 13 types x parts 1..=6 x points/part 1..=8 x {Direct, BufWriter(7), BufWriter(8192)} x {with,without shx}, enumerated; rt-large: files of 1023..10000 records, shapes of 1023..2049 parts and of 1023..8193, 65535..70000, 2^17+5, 2^18+5 (thorough: 2^20+5) points per part, around the readers' internal limits and powers of two a block-wise writer may use; rt-seeded: one seeded scenario per run (type, 0..40 shapes via public constructors, swarm-drawn float classes incl. +-0, subnormals, +-inf, sentinels, no-data neighbourhood, NaN in Z/M; finalize placement; ending by drop / finalize+drop / write_shapes; writer and reader stacks; chunk/EINTR schedules on all four devices; by-path routes over pre-existing longer files in 1/16 of the runs). A run is non-trivial if it wrote at least one shape; distinct = distinct (type, per-shape part-length signature, writer stack, call pattern, reader stack) tuples by hash. c03-sweep and foreign-seeded: files from the reference encoder incl. null records. On every well-formed file: the full 13 x 13 matrix of (requested type, file type) for read_as vs convert_shapes_to_vec_of(read()), drained iter_shapes_as for every wrong type, TryFrom<Shape> into all 13 types for every value, shapetype() of value and of type. foreign-seeded / c03-sweep: a quarter of the foreign files (incl. physically permuted ones) are also read by path, read_shapes_as(path) against read_shapes(path) converted. For a quarter of the files the whole matrix is run again on the same records under a header that names another type. For all 14 x 14 ordered pairs the text of the mismatch error spells both types by their names, and ShapeType's Display does. pair-sweep3: after seek(k) on two complete readers, Reader::read() against Reader::read_as::<S>().",
+            rule: "rt-grid: 13 types x parts 1..=6 x points/part 1..=8 x {Direct, BufWriter(7), BufWriter(8192), write-back layer (committed on flush only)} x {with,without shx}, enumerated; rt-large: files of 1023..10000 records, shapes of 1023..2049 parts and of 1023..8193, 65535..70000, 2^17+5, 2^18+5 (thorough: 2^20+5) points per part, around the readers' internal limits and powers of two a block-wise writer may use; rt-seeded: one seeded scenario per run (type, 0..40 shapes via public constructors, swarm-drawn float classes incl. +-0, subnormals, +-inf, sentinels, no-data neighbourhood, NaN in Z/M; finalize placement; ending by drop / finalize+drop / write_shapes; writer and reader stacks; chunk/EINTR schedules on all four devices; by-path routes over pre-existing longer files in 1/16 of the runs). A run is non-trivial if it wrote at least one shape; distinct = distinct (type, per-shape part-length signature, writer stack, call pattern, reader stack) tuples by hash. c03-sweep and foreign-seeded: files from the reference encoder incl. null records. On every well-formed file: the full 13 x 13 matrix of (requested type, file type) for read_as vs convert_shapes_to_vec_of(read()), drained iter_shapes_as for every wrong type, TryFrom<Shape> into all 13 types for every value, shapetype() of value and of type. foreign-seeded / c03-sweep: a quarter of the foreign files (incl. physically permuted ones) are also read by path, read_shapes_as(path) against read_shapes(path) converted. For a quarter of the files the whole matrix is run again on the same records under a header that names another type. For all 14 x 14 ordered pairs the text of the mismatch error spells both types by their names, and ShapeType's Display does. pair-sweep3: after seek(k) on two complete readers, Reader::read() against Reader::read_as::<S>(). For every file of at most 8 shapes, the bulk conversion of its shapes followed by two shapes of two other kinds (all ordered pairs of {null, Point, PointM, Polyline}), and of one shape of the requested type followed by those two: the error names the first mismatch, as the element-wise conversion does.",
             explanation: "Fault-free configuration of the simulator with must-be-masked transfer schedules: the real writer runs against simulated devices, the bytes are judged by an independent decoder and read back through every reading route of the real reader. Simulated time = device operations (logical_steps); the code under test has no clock.",
             exhaustive: false,
         },
         "C03" => PropMeta {
             level: "exploration",
-            rule: "c03-sweep: 14 type codes x every combination of present/absent optional M over 3 records x {normal, zero parts, one-vertex parts, zero-vertex parts} x {with, without trailing bytes}, enumerated; foreign-large: 5000 records incl. null records, 1025..2049 parts incl. empty and one-vertex parts, 1024..3000 points per part; foreign-seeded: one seeded file per run from the reference encoder (any of the 14 codes, 0..6 records, null records interleaved, 0..4 parts of 0..7 vertices, any float bit pattern incl. NaN in X/Y, arbitrary stored boxes and record numbers, optional M per record, bytes after the declared length, short-read/EINTR schedules, BufReader capacities). non-trivial = at least one record; distinct = distinct (type, per-record (type, M present, part lengths), order, filler lengths, trailing length) tuples. Files with contiguous records are also read with their index by two successive iterators of one reader (half of the records, then the rest), whatever record numbers they store. With the index: all but two records through next(), the next one asked for as another type, the remaining one through Iterator::last(). With the index on a source whose seek moves and then reports an error once: seek(k) fails, the iteration that follows yields the records from the first or from k. Polygon ring roles are compared with the sign of the exact area wherever the plain double-precision sum has that sign too; the sweep holds rings with a side of 2^-30 and slivers whose x coordinates are 0, 1, 2 units of the smallest subnormal, in both orientations.",
+            rule: "c03-sweep: 14 type codes x every combination of present/absent optional M over 3 records x {normal, zero parts, one-vertex parts, zero-vertex parts} x {with, without trailing bytes}, enumerated; foreign-large: 5000 records incl. null records, 1025..2049 parts incl. empty and one-vertex parts, 1024..3000 points per part; foreign-seeded: one seeded file per run from the reference encoder (any of the 14 codes, 0..6 records, null records interleaved, 0..4 parts of 0..7 vertices, any float bit pattern incl. NaN in X/Y, arbitrary stored boxes and record numbers, optional M per record, bytes after the declared length, short-read/EINTR schedules, BufReader capacities). non-trivial = at least one record; distinct = distinct (type, per-record (type, M present, part lengths), order, filler lengths, trailing length) tuples. Files with contiguous records are also read with their index by two successive iterators of one reader (half of the records, then the rest), whatever record numbers they store. With the index: all but two records through next(), the next one asked for as another type, the remaining one through Iterator::last(). With the index on a source whose seek moves and then reports an error once: seek(k) fails, the iteration that follows yields the records from the first or from k. Polygon ring roles are compared with the sign of the exact area wherever the plain double-precision sum has that sign too; the sweep holds rings with a side of 2^-30 and slivers whose x coordinates are 0, 1, 2 units of the smallest subnormal, in both orientations. The same streams decoded record by record through their index (physically permuted ones included) are judged under C03 too.",
             explanation: "Stub producer, real consumer: the file comes from the independent reference encoder, the real reader decodes it from a simulated source. Oracle: same record count and order, parts, patch kinds, coordinates bit-identical with absent M reported as NO_DATA and present M normalised, stored box returned as stored, no read beyond the declared length (Direct stack, from the device event log).",
             exhaustive: false,
         },
         "C14" => PropMeta {
             level: "exploration",
-            rule: "c14-sweep: 13 types x n=1..4 records of pairwise different sizes x all n! physical orders x {no filler, short filler, filler that looks like a record header}, enumerated; c14-sparse: 13 types x 5 layouts of a sparse source of up to 4 GiB whose records sit at and beyond the 2 GiB boundary, in non-physical index order; foreign-seeded: seeded files with shuffled physical order, random even-length filler (some looking like record headers) before/between/after records, short-read schedules, BufReader capacities. distinct as for C03. A quarter of all scenarios (chosen by content hash) are also written to disk and read by path: read_shapes, ShapeReader::from_path(..).read(), read_shapes_as (the .shx next to the .shp is supplied to each), and typed-by-path is compared with generic-by-path converted (C06). Half of the by-path scenarios are data sets of symbolic links into a store whose files carry other names. iter_shapes().last() on a fresh indexed reader over every layout. foreign-large: indexes of 1025, 4096, 4097, 5000, 8192 and 12288 entries. On files with null records: a typed loop up to its first error, then a second loop on the same reader - together one item per index entry.",
+            rule: "c14-sweep: 13 types x n=1..4 records of pairwise different sizes x all n! physical orders x {no filler, short filler, filler that looks like a record header}, enumerated; c14-sparse: 13 types x 5 layouts of a sparse source of up to 4 GiB whose records sit at and beyond the 2 GiB boundary, in non-physical index order; foreign-seeded: seeded files with shuffled physical order, random even-length filler (some looking like record headers) before/between/after records, short-read schedules, BufReader capacities. distinct as for C03. A quarter of all scenarios (chosen by content hash) are also written to disk and read by path: read_shapes, ShapeReader::from_path(..).read(), read_shapes_as (the .shx next to the .shp is supplied to each), and typed-by-path is compared with generic-by-path converted (C06). Half of the by-path scenarios are data sets of symbolic links into a store whose files carry other names. iter_shapes().last() on a fresh indexed reader over every layout. foreign-large: indexes of 1025, 4096, 4097, 5000, 8192 and 12288 entries. On files with null records: a typed loop up to its first error, then a second loop on the same reader - together one item per index entry. One item taken, the iterator leaked with mem::forget, then a second iteration: the remaining entries or all.",
             explanation: "The reference encoder places records at arbitrary offsets and writes the matching .shx; the real reader opened with_shx must yield one item per index entry in index order, each equal to the record at that entry, agree with read_nth_shape(i) and shape_count(). Reach counter: seeks issued during indexed iteration.",
             exhaustive: true,
         },
         "C08" => PropMeta {
             level: "exploration",
-            rule: "pair-sweep: 13 types x all histories up to length 4 (quick) / 5 (thorough) over {good pair a, good pair b, shape of another type, row missing a field, row with a value of the wrong field type} (a wrong-type shape never first) x ending {drop, write_shapes_and_records} x {Direct, BufWriter(64)}, enumerated completely, by-path route (Writer::from_path over pre-existing longer files, then a neighbouring data set with other rows written to a path that differs only behind a dot inside the file stem; Reader::from_path, shapefile::read) on the length-2 histories without failing rows; for histories without failing row also the complete Reader after seek(k-1), a failing typed pair iteration and seek(k); pair-large: 1025, 4097 and 6000 pairs in one file; pair-seeded: seeded histories up to length 10 with generated shapes and stacks. distinct = distinct (type, history, ending, stack) tuples. Histories without failing row are also read by a complete Reader without index through two successive pair iterations (half of the pairs, then the rest). Two successive pair iterations on one complete Reader, with and without index, the first one by take(k) or by Iterator::nth(k-1).",
+            rule: "pair-sweep: 13 types x all histories up to length 4 (quick) / 5 (thorough) over {good pair a, good pair b, shape of another type, row missing a field, row with a value of the wrong field type} (a wrong-type shape never first) x ending {drop, write_shapes_and_records} x {Direct, BufWriter(64)}, enumerated completely, by-path route (Writer::from_path over pre-existing longer files, then a neighbouring data set with other rows written to a path that differs only behind a dot inside the file stem; Reader::from_path, shapefile::read) on the length-2 histories without failing rows; for histories without failing row also the complete Reader after seek(k-1), a failing typed pair iteration and seek(k); pair-large: 1025, 4097 and 6000 pairs in one file; pair-seeded: seeded histories up to length 10 with generated shapes and stacks. distinct = distinct (type, history, ending, stack) tuples. Histories without failing row are also read by a complete Reader without index through two successive pair iterations (half of the pairs, then the rest). Two successive pair iterations on one complete Reader, with and without index, the first one by take(k) or by Iterator::nth(k-1). Without index: a seek (refused for want of an index), then the sequential bulk read. (The .dbf never sits on the write-back layer: dbase never flushes its destination.)",
             explanation: "The complete Writer runs on three simulated devices. After every call (Direct stack) the three files are scanned physically and independently (records from byte 100, index entries, whole rows after the dbf header + stray bytes); at the end the counts come from the independent decoders and the dbf header, and the complete Reader must return exactly the successfully written pairs, shape i with the row whose idx is i. Histories containing a failing row hit the two known findings listed in known_findings.jsonl.",
             exhaustive: true,
         },
         "C15" => PropMeta {
             level: "exploration",
-            rule: "all call sequences up to length 4 (quick) / 6 (thorough) over the 19-letter alphabet {Iterator::last() on a new iterator, random access as a user-defined ReadableShape whose read_from panics (caught by the caller), iterate 0/1/2/all items, Iterator::nth(1) on a new iterator (what skip and step_by call), read_nth_shape(0..=3), read_nth_shape_as::<another type>(0..=1) (a random access that fails), iterate as another type and take one item (an iteration that fails), seek(0..=3), shape_count} on files of n=3 records (plus six configurations with n = 1, 2 and 4 records; the 4-record ones one call shorter), for 12 configurations: {ShapeReader with index, ShapeReader without index, complete Reader with rows carrying their index, complete Reader without index} x {records of pairwise different sizes, records of equal size}, plus 4 configurations (ShapeReader with index, complete Reader) on files re-laid out so that the physical order differs from the index order (reversed with filler; rotated with filler that looks like a record header), enumerated completely (19 + 19^2 + 19^3 + 19^4 histories per 3-record configuration in the quick tier). distinct = distinct (configuration, history) pairs; evaluations = histories executed; logical_steps = reader calls. Two more configurations read files whose records are each followed by 4 bytes of slack that the index entry's length field includes. Two configurations read through a .shp source that cannot seek at all (every seek fails) with the iterating letters only.",
+            rule: "all call sequences up to length 4 (quick) / 5 (thorough; length 6 over the property's own letters iterate / random access / seek / count) over the 20-letter alphabet (21 on the complete reader) {take one item and leak the iterator (mem::forget), on the complete reader a pair iteration with a caller's row type that cannot represent the rows (an honest conversion error), Iterator::last() on a new iterator, random access as a user-defined ReadableShape whose read_from panics (caught by the caller), iterate 0/1/2/all items, Iterator::nth(1) on a new iterator (what skip and step_by call), read_nth_shape(0..=3), read_nth_shape_as::<another type>(0..=1) (a random access that fails), iterate as another type and take one item (an iteration that fails), seek(0..=3), shape_count} on files of n=3 records (plus six configurations with n = 1, 2 and 4 records; the 4-record ones one call shorter), for 12 configurations: {ShapeReader with index, ShapeReader without index, complete Reader with rows carrying their index, complete Reader without index} x {records of pairwise different sizes, records of equal size}, plus 4 configurations (ShapeReader with index, complete Reader) on files re-laid out so that the physical order differs from the index order (reversed with filler; rotated with filler that looks like a record header), enumerated completely (20 + 20^2 + 20^3 + 20^4 histories per 3-record configuration in the quick tier). distinct = distinct (configuration, history) pairs; evaluations = histories executed; logical_steps = reader calls. Two more configurations read files whose records are each followed by 4 bytes of slack that the index entry's length field includes. Two configurations read through a .shp source that cannot seek at all (every seek fails) with the iterating letters only.",
             explanation: "Each history runs on the real reader over in-memory sources; every call's result is checked against a nondeterministic reference model whose state is the set of allowed positions of the next record: fresh / after random access = {0}, after seek(k) = {min(k,n)}, after an iteration that took items from p = {p+taken, 0}. Rows of the complete Reader must carry the index of their shape.",
             exhaustive: true,
         },
         "C09" => PropMeta {
             level: "exploration",
-            rule: "c09-sweep: all sequences over {write a, write b, finalize} up to length 4 (quick) / 6 (thorough) x ending {drop, finalize+drop, write_shapes} x 13 types x {with,without index} x {Direct, BufWriter(5), BufWriter(8192)}, enumerated completely; hw-seeded: longer seeded histories with varying shapes, rejected writes and masked transfer schedules. distinct = distinct (type, call pattern, index, stack) tuples; all are non-trivial (each executes at least the ending). wfault-c02: seeded workloads with finalize calls anywhere x every device operation of every explicit finalize failed once: what the drop leaves must equal write-all-then-drop (a third of the workloads carry only NaN in Z/M before the first finalize). The sweep runs the histories up to length 4 (plain drop, finalize then drop) also on destinations that already hold 104 bytes of older content, against write-all-then-drop on such destinations. For the types with Z and M the sweep (to length 3) is repeated with shapes lying exactly at the origin. Histories up to length 4 ending in a drop are also run with BufWriter destinations that are only lent to the writer: the devices are compared with write-then-drop right after the writer is dropped.",
+            rule: "c09-sweep: all sequences over {write a, write b, finalize} up to length 4 (quick) / 6 (thorough) x ending {drop, finalize+drop, write_shapes} x 13 types x {with,without index} x {Direct, BufWriter(5), BufWriter(8192), a write-back layer that hands nothing to the device before flush() is called - not on seek, not when dropped}, enumerated completely; hw-seeded: longer seeded histories with varying shapes, rejected writes and masked transfer schedules. distinct = distinct (type, call pattern, index, stack) tuples; all are non-trivial (each executes at least the ending). wfault-c02: seeded workloads with finalize calls anywhere x every device operation of every explicit finalize failed once: what the drop leaves must equal write-all-then-drop (a third of the workloads carry only NaN in Z/M before the first finalize). The sweep runs the histories up to length 4 (plain drop, finalize then drop) also on destinations that already hold 104 bytes of older content, against write-all-then-drop on such destinations. For the types with Z and M the sweep (to length 3) is repeated with shapes lying exactly at the origin. Histories up to length 4 ending in a drop are also run with BufWriter destinations that are only lent to the writer: the devices are compared with write-then-drop right after the writer is dropped. c09-size-ladder: a caller's honest shape of every even size from 4 to 4096 bytes, a finalize, a second record (16 bytes or the same size), a finalize, a third, drop - against the same three records without any finalize, with and without an index, so that the file length a finalize sees takes every value of a range.",
             explanation: "Each history runs on simulated devices with every call bracketed by the device events it caused; final bytes are compared with those of 'same shapes, drop' executed in the same process; after every successful finalize the device content below any buffer must be a complete shapefile (independent decoder); an idle finalize must have an empty event range.",
             exhaustive: true,
         },
@@ -294,25 +306,25 @@ pub fn meta(prop: &str) -> PropMeta {
         },
         "C11" => PropMeta {
             level: "fault_enumeration",
-            rule: "one unit = one seeded workload (type, 1..5 tagged shapes, 0..3 finalize calls anywhere, Direct or BufWriter stack, with index) run once; then every .shp cut point (every event boundary and every byte inside every write) is read without index, and every (shp cut, shx cut) pair - all of them in the thorough tier, an evenly strided sample of at most 20000 per workload in the quick tier - is read with index (sequential + random access at every entry). evaluations = crash states judged; distinct = distinct (workload, shp image hash, shx image hash) triples actually read; duplicates are skipped and counted in reach. crash-tear: seeded files of 20..420 small records (so that the header length field changes in more than its last byte), every crash state inside the header rewrites of finalize/drop, read without and with the (complete) index; crash-path: 28 deterministic by-path scenarios on the real file system: a (longer) shapefile already exists at the path, ShapeWriter::from_path writes new shapes with an optional finalize and then crashes (mem::forget: buffered bytes are lost). With the index, after random access at every entry (the last ones may fail on a cut record) the same reader is iterated again and drained completely: the Ok items, errors skipped, must still be shapes 0..j in order. crash-big: a two-point line and a 4.2 M-point line (a 64 MiB record), crash images cut near the start, in the middle and near the end of the large record with a complete index. One crash image in 16 (by content) is also written to a file and read by path.",
+            rule: "one unit = one seeded workload (type, 1..5 tagged shapes, 0..3 finalize calls anywhere, Direct or BufWriter stack, with index) run once; then every .shp cut point (every event boundary and every byte inside every write) is read without index, and every (shp cut, shx cut) pair - all of them in the thorough tier, an evenly strided sample of at most 20000 per workload in the quick tier - is read with index (sequential + random access at every entry). evaluations = crash states judged; distinct = distinct (workload, shp image hash, shx image hash) triples actually read; duplicates are skipped and counted in reach. crash-tear: seeded files of 20..420 small records (so that the header length field changes in more than its last byte), every crash state inside the header rewrites of finalize/drop, read without and with the (complete) index; crash-path: 28 deterministic by-path scenarios on the real file system: a (longer) shapefile already exists at the path, ShapeWriter::from_path writes new shapes with an optional finalize and then crashes (mem::forget: buffered bytes are lost). With the index, after random access at every entry (the last ones may fail on a cut record) the same reader is iterated again and drained completely: the Ok items, errors skipped, must still be shapes 0..j in order. crash-big: a two-point line and a 4.2 M-point line (a 64 MiB record), crash images cut near the start, in the middle and near the end of the large record with a complete index. One crash image in 16 (by content) is also written to a file and read by path. crash-range-tear: 5 types x a first shape at 1e305 / +-inf / +-MAX x a second near 1.99 / -1.5 / 1 / 1.25, a finalize after each: every byte cut inside the header rewrites, so that a torn 8-byte range mixes the bytes of two very different doubles (NaN, infinite and subnormal mixtures).",
             explanation: "Crash states are reconstructed from the recorded event log, not by re-running the writer. Oracle: Ok items before the first Err are a prefix of the shapes written; random access returns shape i or an error; shapes written before a finalize whose Flush on the .shp is inside the prefix are all readable without index.",
             exhaustive: false,
         },
         "C12" => PropMeta {
             level: "fault_enumeration",
-            rule: "one unit = one seeded workload (write_shape / finalize retried at once while it fails, up to 3 times / finalize whose failure is ignored and followed by further writes / drop; Direct or BufWriter stack); golden run, then for every operation k issued on each destination: one-shot error, persistent error, Ok(0), EINTR at k; two and three consecutive one-shot errors starting at k (the retry fails too); disk-full at ~150 capacities per destination; every short-write chunk size from 1 byte upward with and without EINTR; 6 seeded mixed schedules. distinct = distinct (history, fault class, per-call result pattern) triples; runs whose fault never fired are not counted as distinct. c12-big-file: 34 user-defined shapes of 64 MiB on a sparse sink, a finalize at 2 GiB that fails once at its k-th operation (k = 1..6) and is not retried, further writes, drop: same file as the undisturbed run. wfault-c02: seeded workloads with finalize calls anywhere, in a third of them a shape of another type offered (rejected) after every finalize, every device operation of every explicit finalize failed once: the files left by the drop equal those of the undisturbed run. Every seek of the undisturbed run is also failed in the way 'moved, then reported an error'. wfault-large: a 70000-point polyline between two small ones and a finalize, written straight to the devices; the first 40 and last 200 .shp operations of every call and every .shx operation fail once, one-shot and persistently.",
+            rule: "one unit = one seeded workload (write_shape / finalize retried at once while it fails, up to 3 times / finalize whose failure is ignored and followed by further writes / drop; Direct or BufWriter stack); golden run, then for every operation k issued on each destination: one-shot error, persistent error, Ok(0), EINTR at k; two and three consecutive one-shot errors starting at k (the retry fails too); disk-full at ~150 capacities per destination; every short-write chunk size from 1 byte upward with and without EINTR; 6 seeded mixed schedules. distinct = distinct (history, fault class, per-call result pattern) triples; runs whose fault never fired are not counted as distinct. c12-big-file: 34 user-defined shapes of 64 MiB on a sparse sink, a finalize at 2 GiB that fails once at its k-th operation (k = 1..6) and is not retried, further writes, drop: same file as the undisturbed run. wfault-c02: seeded workloads with finalize calls anywhere, in a third of them a shape of another type offered (rejected) after every finalize, every device operation of every explicit finalize failed once: the files left by the drop equal those of the undisturbed run. Every seek of the undisturbed run is also failed in the way 'moved, then reported an error'. wfault-large: a 70000-point polyline between two small ones and a finalize, written straight to the devices; the first 40 and last 200 .shp operations of every call and every .shx operation fail once, one-shot and persistently. c12-stderr-gone: the process environment as a fault - the same binary run as a child process whose standard error stream is a pipe without a reader (closed before the child is released), running a small history with every device operation failing in turn, persistently and once, and reporting its verdicts on standard output. wfault-large also covers shapes of 1025 and 2049 parts (the first 1200 operations of each call, the last 200, every seventh in between).",
             explanation: "Surfacing is judged with the API-call brackets: the call whose device-event range contains the failed operation must return Err (exact also below a BufWriter). Whenever every fault of a run landed inside finalize calls (first attempts, retries, or finalizes that are not retried) and none in a write or in the drop, the final files must equal the golden ones - the history always ends with the finalize run by Drop. Masked schedules (short writes, EINTR on writes) must leave golden bytes. Drop with a persistently failing destination must not panic.",
             exhaustive: false,
         },
         "C07" | "C17" => PropMeta {
             level: "fault_enumeration",
-            rule: "corrupt: one unit = one seeded base file from the real writer (any type, 1..4 records, 1..3 parts) with its .shx and a valid .dbf; enumerated per base file: every 32-bit field of .shp and .shx (header length/version/type, record number/length/type, part and point counts, every part offset, every patch kind, index length/type, every index offset/length) x ~25 boundary values (0, +-1, i32::MIN/MAX, 2^27..2^30 and neighbours, doubles/halves of the original), every truncation length of both files, extensions by 1/7/8/100 bytes and by a copy of the records; sampled per base file: 150 field pairs, 150 bit flips, 40 garbage bodies behind a valid file code. ladder: for every multi-vertex type and the index, declared counts 10^3..2^31-1 (incl. 2^27, 2^28, 2^29 whose byte sizes wrap 32 bits) with mutually consistent record/file lengths and either no data behind or exactly 1024/1025/2048/5000 elements (4096/4097/9000 index entries) really present, and for the multipart types counts that need no x,y at all (the only part starts at, or one before, the end of the points; no part), so that the Z / M arrays are reached with nothing read; plus valid fully backed files of unusual structure (3000 two-point parts, 2049 patches, 1500 rings, 8193 points, 5000 records). Every case drives ~45 reader calls (open, header, count, iterate generic/typed drained, size_hint, read_nth and seek at 0,1,n-1,n,usize::MAX each followed by iteration, read, read_as, complete Reader iterate/seek/read). distinct = distinct (type, field id + value class, outcome signature) triples. The ladder also holds each declared count stored behind a small complete record and listed first by the index (an indexed iteration has to seek), and a Point file of 400 000 null records followed by one point. Indexes declaring unbacked entries also stand next to a .shp header declaring room for as many records. Every case also drives nth(usize::MAX) after one item, skip(usize::MAX), step_by(usize::MAX) and last() on readers that are not at their start. One case in 64 is also read by path under names that are not valid UTF-8, without and with an index next to it. The complete Reader is also driven without index (read, read_as), and the ladder holds a .dbf whose header declares 10^3..2^32-1 rows with one present.",
+            rule: "corrupt: one unit = one seeded base file from the real writer (any type, 1..4 records, 1..3 parts) with its .shx and a valid .dbf; enumerated per base file: every 32-bit field of .shp and .shx (header length/version/type, record number/length/type, part and point counts, every part offset, every patch kind, index length/type, every index offset/length) x ~25 boundary values (0, +-1, i32::MIN/MAX, 2^27..2^30 and neighbours, doubles/halves of the original), every truncation length of both files, extensions by 1/7/8/100 bytes and by a copy of the records; sampled per base file: 150 field pairs, 150 bit flips, 40 garbage bodies behind a valid file code. ladder: for every multi-vertex type and the index, declared counts 10^3..2^31-1 (incl. 2^27, 2^28, 2^29 whose byte sizes wrap 32 bits) with mutually consistent record/file lengths and either no data behind or exactly 1024/1025/2048/5000 elements (4096/4097/9000 index entries) really present, and for the multipart types counts that need no x,y at all (the only part starts at, or one before, the end of the points; no part), so that the Z / M arrays are reached with nothing read; plus valid fully backed files of unusual structure (3000 two-point parts, 2049 patches, 1500 rings, 8193 points, 5000 records). Every case drives ~45 reader calls (open, header, count, iterate generic/typed drained, size_hint, read_nth and seek at 0,1,n-1,n,usize::MAX each followed by iteration, read, read_as, complete Reader iterate/seek/read). distinct = distinct (type, field id + value class, outcome signature) triples. The ladder also holds each declared count stored behind a small complete record and listed first by the index (an indexed iteration has to seek), and a Point file of 400 000 null records followed by one point. Indexes declaring unbacked entries also stand next to a .shp header declaring room for as many records. Every case also drives nth(usize::MAX) after one item, skip(usize::MAX), step_by(usize::MAX) and last() on readers that are not at their start. One case in 64 is also read by path under names that are not valid UTF-8, without and with an index next to it. The complete Reader is also driven without index (read, read_as), and the ladder holds a .dbf whose header declares 10^3..2^32-1 rows with one present. The ladder also holds, for every multi-vertex type, a shape without any point whose stored box and ranges are all NaN.",
             explanation: "Each reader call runs under catch_unwind (overflow checks and debug assertions on) and between begin/end of the counting allocator; iterators are drained through an item cap of (len(shp)+len(shx))/4+16. Workers run under an address-space limit with a watchdog: a worker that dies or stalls is pinpointed to the case and reported as abort/hang. C17 bound per call: peak live bytes and largest single request <= 64 x input bytes + 64 KiB.",
             exhaustive: false,
         },
         "C13" => PropMeta {
             level: "fault_enumeration",
-            rule: "one unit = one seeded valid file from the real writer (every type, 1..4 tagged shapes); every truncation length 0..=len of the .shp (read with and without index) and of the .shx; for each of 3 reader stacks (Direct, small BufReader, BufReader(8192)) x {with, without index}: every operation k of an undisturbed full traversal (open, iterate, read_nth every i) failed one-shot with a rotating error kind and with EINTR; every short-read chunk size x {no EINTR, EINTR every 2nd, every 5th call}; 8 seeded mixed schedules; the same fault sweeps on two re-laid-out versions of each file (physical order != index order, so that the indexed traversal seeks); rfault-large: 8 files whose middle record has a part of 1025..2000 points or 1030 parts, with strides away from record boundaries (11 bytes / 37 operations; 101 / 409 in the quick tier). distinct = distinct (file, fault/truncation, route) triples by hash. size_hint() is called after every item, errors included (what collect() does). The traversal ends with Iterator::last() and two more items; on the complete file read from a source that never fails no iteration item and no random access to an existing entry may be an error. Three re-laid-out versions of each file (reversed with filler; rotated with header-like filler; last record first and the others contiguous) are cut at every length and read with the complete index: record i is returned iff it lies wholly inside the retained bytes. Every seek of the traversals is also failed in the way 'moved, then reported an error'.",
+            rule: "one unit = one seeded valid file from the real writer (every type, 1..4 tagged shapes); every truncation length 0..=len of the .shp (read with and without index) and of the .shx; for each of 3 reader stacks (Direct, small BufReader, BufReader(8192)) x {with, without index}: every operation k of an undisturbed full traversal (open, iterate, read_nth every i) failed one-shot with a rotating error kind and with EINTR; every short-read chunk size x {no EINTR, EINTR every 2nd, every 5th call}; 8 seeded mixed schedules; the same fault sweeps on two re-laid-out versions of each file (physical order != index order, so that the indexed traversal seeks); rfault-large: 8 files whose middle record has a part of 1025..2000 points or 1030 parts, with strides away from record boundaries (11 bytes / 37 operations; 101 / 409 in the quick tier). distinct = distinct (file, fault/truncation, route) triples by hash. size_hint() is called after every item, errors included (what collect() does). The traversal ends with Iterator::last() and two more items; on the complete file read from a source that never fails no iteration item and no random access to an existing entry may be an error. Three re-laid-out versions of each file (reversed with filler; rotated with header-like filler; last record first and the others contiguous) are cut at every length and read with the complete index: record i is returned iff it lies wholly inside the retained bytes. Every seek of the traversals is also failed in the way 'moved, then reported an error'. For every cut of the .shp (layout as written) and every source plan, the complete reader over the same source with a whole .dbf whose rows the caller's row type cannot represent (every row fails to convert): the cut record, or the failing read, is still reported as that I/O error by the call in progress.",
             explanation: "Every reader call of the traversal is bracketed with its device events. Oracles: only genuine shapes at their positions; records wholly inside the retained bytes are returned; the cut record is Error::IoError; a hard source failure surfaces from the call in progress with that error; short reads / EINTR leave every result identical to the undisturbed traversal.",
             exhaustive: false,
         },
